@@ -14,36 +14,67 @@ import (
 
 // ---------------------------------------------------------------- the watermarker
 
-type wprog struct{ TS []int64 }
+// TS is an event timestamp: seconds and nanoseconds since the Unix epoch, as
+// time.Unix takes them (any sign; the Go, and protobuf, range is years 1..9999).
+type TS struct{ Sec, Nsec int64 }
+
+func (t TS) Time() time.Time { return time.Unix(t.Sec, t.Nsec) }
+
+type wprog struct{ TS []TS }
 
 func genW(rt *rapid.T) wprog {
-	return wprog{TS: rapid.SliceOfN(rapid.OneOf(rapid.Int64Range(1, 50), rapid.Int64Range(1, 1<<50)), 1, 40).Draw(rt, "ts")}
+	sec := rapid.OneOf(
+		rapid.Just(int64(0)),                                // within a second of the epoch
+		rapid.Int64Range(-2, 2),                             // around the epoch
+		rapid.Int64Range(1, 1<<31),                          // ordinary dates
+		rapid.Int64Range(-3_000_000_000, -1),                // before 1970
+		rapid.Int64Range(1<<33, 253_402_300_799),            // beyond what int64 nanoseconds can hold
+		rapid.Int64Range(-62_135_596_800+1, -9_300_000_000), // before 1678
+	)
+	nsec := rapid.OneOf(rapid.Int64Range(0, 50), rapid.Int64Range(0, 999_999_999))
+	n := rapid.IntRange(1, 40).Draw(rt, "n")
+	p := wprog{}
+	for i := 0; i < n; i++ {
+		p.TS = append(p.TS, TS{sec.Draw(rt, "sec"), nsec.Draw(rt, "nsec")})
+	}
+	return p
 }
 
 func execW(p wprog, c *hx.Case) error {
 	w := &wmark.Watermarker{}
-	var maxTS int64
-	prev := w.CurrentWatermark()
-	outOfOrder := false
-	for i, ts := range p.TS {
-		if ts < maxTS {
+	var maxTS time.Time
+	var prev time.Time
+	outOfOrder, preEpoch, beyondNanos := false, false, false
+	for i, e := range p.TS {
+		ts := e.Time()
+		if i > 0 && ts.Before(maxTS) {
 			outOfOrder = true
 		}
-		w.AdvanceTime(time.Unix(0, ts))
-		maxTS = max(maxTS, ts)
-		cur := w.CurrentWatermark()
-		if cur.Before(prev) {
-			return hx.Errf("after event %d (timestamp %d) the watermark went back from %v to %v", i, ts, prev.UnixNano(), cur.UnixNano())
+		if e.Sec < 0 {
+			preEpoch = true
 		}
-		if !cur.Before(time.Unix(0, maxTS)) {
-			return hx.Errf("after event %d the watermark %d reached the largest forwarded timestamp %d", i, cur.UnixNano(), maxTS)
+		if e.Sec > 1<<33 || e.Sec < -9_300_000_000 {
+			beyondNanos = true
+		}
+		w.AdvanceTime(ts)
+		if i == 0 || ts.After(maxTS) {
+			maxTS = ts
+		}
+		cur := w.CurrentWatermark()
+		if i > 0 && cur.Before(prev) {
+			return hx.Errf("after event %d (timestamp %v) the watermark went back from %v to %v", i, ts.UTC(), prev.UTC(), cur.UTC())
+		}
+		if !cur.Before(maxTS) {
+			return hx.Errf("after event %d the watermark %v reached the largest forwarded timestamp %v", i, cur.UTC(), maxTS.UTC())
 		}
 		// follows closely: with no allowed lateness it trails the maximum by one nanosecond
-		if cur.UnixNano() != maxTS-1 {
-			return hx.Errf("after event %d the watermark is %d, expected to follow the largest timestamp %d closely (max-1ns)", i, cur.UnixNano(), maxTS)
+		if !cur.Equal(maxTS.Add(-time.Nanosecond)) {
+			return hx.Errf("after event %d the watermark is %v, expected to follow the largest timestamp %v closely (max-1ns)", i, cur.UTC(), maxTS.UTC())
 		}
 		prev = cur
 	}
+	c.LabelIf(preEpoch, "pre-epoch")
+	c.LabelIf(beyondNanos, "outside-int64-nanoseconds")
 	if outOfOrder {
 		c.NonTrivial()
 	}
@@ -51,7 +82,7 @@ func execW(p wprog, c *hx.Case) error {
 }
 
 func TestPropWatermarker(t *testing.T) {
-	hx.Run(t, hx.Spec{Prop: "C11", Rule: "1..40 event timestamps in arbitrary order fed to wmark.Watermarker: the watermark never decreases, stays strictly below the largest timestamp seen and equals it minus 1ns; non-trivial = an out-of-order timestamp"}, genW, execW)
+	hx.Run(t, hx.Spec{Prop: "C11", Rule: "1..40 event timestamps in arbitrary order fed to wmark.Watermarker, drawn from the whole time.Time range a record can carry (around and before the Unix epoch, ordinary dates, dates outside the int64-nanosecond window 1678..2262): the watermark never decreases, stays strictly below the largest timestamp seen and equals it minus 1ns; non-trivial = an out-of-order timestamp"}, genW, execW)
 }
 
 // ---------------------------------------------------------------- the operator's minimum
